@@ -9,6 +9,9 @@ outputs and proved of the model in Props/C20 (as far as a model can express it).
   summary   : the statistics block evaluates without an index out of range
   record    : every transmitted upkeep was checked at its check block by ≥ f+1
               distinct nodes; no transmitted report is empty
+  churn     : subscribers (plugin instances) that come and go on a running block
+              source: nothing is ever sent on a closed channel (the process survives),
+              every one of them is attached, served newest-first and detached
 -/
 namespace AutoVerif.C20
 
@@ -129,5 +132,28 @@ def explainRecord (f : Nat) (checks : List CheckRec) (sent : List Sent) (rows : 
   match rows.find? (fun r => !rowQuorum f checks r) with
   | some r => s!"transmitted upkeep checked at its check block by fewer than f+1 distinct nodes (upkeep {r.upkeep.take 8} check block {r.checkBlock}: {(checkedBy checks r).length} node(s), f={f})"
   | none => if !noEmptyReport sent rows then "empty report transmitted" else "ok"
+
+/-! ### subscribers coming and going on a running block source -/
+
+/-- what a churn case observed (the process survived: the counts exist) -/
+structure ChurnObs where
+  attached  : Nat
+  detached  : Nat
+  saw       : Nat
+  badOrder  : Nat
+  notClosed : Nat
+  errors    : Nat
+  afterOk   : Bool
+  done      : Bool
+deriving DecidableEq, Repr
+
+/-- every instance was attached and detached, histories arrived newest first, every detached channel was closed,
+somebody received a history, and the source still serves a fresh subscriber afterwards -/
+def churnOk (want : Nat) (o : ChurnObs) : Bool :=
+  o.done && o.attached == want && o.detached == want && o.badOrder == 0 && o.notClosed == 0 && o.errors == 0 &&
+  o.afterOk && (want == 0 || decide (o.saw ≥ 1))
+
+/-- the model's side of the same demand: no send ever hits a closed channel -/
+def Hub.crashFree (h : Hub) : Bool := h.closedSends == 0
 
 end AutoVerif.C20
